@@ -14,7 +14,10 @@ type Gen struct {
 	Defs   []*Schema // in definition order (dependencies first)
 	// AvoidTypes lists type names not to use as top-level types.
 	AvoidTypes map[string]bool
-	n          int
+	// EqRef is handed to every s:in constraint generated (see EqualRef).
+	EqRef EqualRef
+	OnKin func(kin string, verdict int)
+	n     int
 }
 
 // Typedef names the prelude defines: (deftype c14tag (x) x) (deftype c14tagb (x) x)
@@ -103,12 +106,16 @@ var menus = map[string][]string{
 var allOps = []string{"in", "gt", "gte", "lt", "lte", "positive", "negative", "len", "lengt", "lengte", "lenlt", "lenlte",
 	"of", "has-key", "may-have-key", "no-other-keys", "when", "not", "is-true", "is-false", "is-truthy", "is-falsy", "regexp"}
 
+// anyOps: behind s:any nothing screens the input, which is where an enum meets
+// values of every kind; s:in (bare and inverted) gets a larger share there.
+var anyOps = append(append([]string{}, allOps...), "in", "in", "in", "not")
+
 func menuFor(t string) []string {
 	switch t {
 	case "float", "number":
 		return menus["int"]
 	case "any", "":
-		return allOps
+		return anyOps
 	}
 	if m, ok := menus[t]; ok {
 		return m
@@ -137,6 +144,11 @@ func (g *Gen) Schema(depth int) *Schema {
 		hint = s.Sub
 	} else {
 		s.Type = g.pickType()
+		if depth > 0 && !g.AvoidTypes["any"] && g.R.Chance(1, 6) {
+			// a validator used as an allowed type / guard / under s:not: more often
+			// one that lets every kind of value through to its constraints
+			s.Type = "any"
+		}
 		s.AsString = g.R.Chance(1, 4)
 		hint = s.Type
 		if s.Type == "tagged-value" {
@@ -196,8 +208,92 @@ func (g *Gen) inVals(hint string) []*Value {
 				out = append(out, Int(fw.Pick(g.R, smallInts)))
 			}
 		}
+		// Slots with no base type in front of the enum (s:any, s:when guards and
+		// conditions, validators used as allowed types) see values of every kind,
+		// so the enum holds members of every kind too: names as symbols, bytes,
+		// nil, lists, arrays, maps, tagged values.  "bool" stays as it is (the
+		// strings "true"/"false" against the symbols are covered from the string
+		// side).
+		if hint != "bool" && g.R.Chance(1, 3) {
+			out[len(out)-1] = g.inMember(hint)
+		}
 	}
 	return out
+}
+
+// inMember: an allowed value outside the usual numbers-and-strings.
+func (g *Gen) inMember(hint string) *Value {
+	name := func() string {
+		for {
+			if s := fw.Pick(g.R, strPool); quotableSymbol(s) {
+				return s
+			}
+		}
+	}
+	small := func() *Value {
+		switch g.R.Intn(5) {
+		case 0:
+			return Int(fw.Pick(g.R, smallInts))
+		case 1:
+			return Float(fw.Pick(g.R, []float64{4.0, 100.0, 0.0, 2.5}))
+		case 2:
+			return Str(fw.Pick(g.R, strPool))
+		case 3:
+			return Sym(name())
+		}
+		return Nil()
+	}
+	switch hint {
+	case "int", "float", "number":
+		// a numeric enum: the text of a number, or the number in the other kind
+		if g.R.Bool() {
+			return Str(numText(g.numConst()))
+		}
+		return Float(float64(fw.Pick(g.R, smallInts)))
+	case "string":
+		if g.R.Chance(2, 3) {
+			return Sym(name())
+		}
+		return Bytes(fw.Pick(g.R, []string{"", "a", "abc", "false", "ab"}))
+	}
+	switch g.R.Intn(9) {
+	case 8:
+		// the empty value of some kind (nil and the empty string / array / map /
+		// bytes are five different values)
+		return fw.Pick(g.R, []*Value{Nil(), Str(""), {K: VArr, Elems: []*Value{}}, {K: VMap, Entries: []Entry{}}, Bytes("")})
+	case 0:
+		return Sym(name())
+	case 1:
+		return Bytes(fw.Pick(g.R, []string{"", "a", "abc", "false", "ab"}))
+	case 2:
+		return Nil()
+	case 3:
+		n := g.R.Range(1, 3)
+		l := &Value{K: VList}
+		for i := 0; i < n; i++ {
+			l.Elems = append(l.Elems, small())
+		}
+		return l
+	case 4:
+		n := g.R.Range(0, 3)
+		a := &Value{K: VArr, Elems: []*Value{}}
+		for i := 0; i < n; i++ {
+			a.Elems = append(a.Elems, small())
+		}
+		return a
+	case 5:
+		n := g.R.Range(0, 2)
+		m := &Value{K: VMap, Entries: []Entry{}}
+		keys := append([]string(nil), keyPool...)
+		fw.Shuffle(g.R, keys)
+		for i := 0; i < n; i++ {
+			m.Entries = append(m.Entries, Entry{Key: keys[i], Sym: g.R.Chance(2, 5), Val: small()})
+		}
+		return m
+	case 6:
+		return Tagged(fw.Pick(g.R, []string{TagA, TagB}), small())
+	}
+	return Str(numText(g.numConst()))
 }
 
 func (g *Gen) keyCons(op string, key string, depth int) *Cons {
@@ -214,6 +310,8 @@ func (g *Gen) consOp(op, hint string, depth int) *Cons {
 	switch op {
 	case "in":
 		c.Vals = g.inVals(hint)
+		c.EqRef = g.EqRef
+		c.OnKin = g.OnKin
 	case "gt", "gte", "lt", "lte":
 		c.Num = g.numConst()
 	case "len", "lengt", "lengte", "lenlt", "lenlte":
@@ -280,7 +378,7 @@ func (g *Gen) Ref(depth int) *Ref {
 	return &Ref{Kind: RType, Type: fw.Pick(g.R, simpleTypes), AsString: g.R.Chance(1, 4)}
 }
 
-var condOps = []string{"in", "gt", "gte", "lt", "lte", "positive", "negative", "len", "lengt", "lenlt", "regexp", "is-true", "is-false", "is-truthy", "is-falsy", "not", "in", "is-true"}
+var condOps = []string{"in", "in", "gt", "gte", "lt", "lte", "positive", "negative", "len", "lengt", "lenlt", "regexp", "is-true", "is-false", "is-truthy", "is-falsy", "not", "in", "is-true"}
 
 // CondRef generates the content of a condition slot of s:when: a constraint, a
 // type name or a validator.
@@ -298,7 +396,7 @@ func (g *Gen) CondRef(depth int) *Ref {
 			hint = "bool"
 		}
 		if op == "in" {
-			hint = fw.Pick(g.R, []string{"int", "string", "bool"})
+			hint = fw.Pick(g.R, []string{"int", "string", "bool", "any"})
 		}
 		return &Ref{Kind: RCons, C: g.consOp(op, hint, depth+1)}
 	case 1:
@@ -689,6 +787,13 @@ func (g *Gen) typed(t string, cons []*Cons, depth int) *Value {
 		}
 		for _, v := range h.ins {
 			if g.R.Chance(1, 2) {
+				// the member itself, or (1 in 2) one of its kin: another kind of
+				// value with the same spelling / number / members / emptiness
+				if g.R.Chance(1, 2) {
+					if sibs := g.Siblings(v, 0); len(sibs) > 0 {
+						return fw.Pick(g.R, sibs)
+					}
+				}
 				return v
 			}
 		}
